@@ -114,10 +114,15 @@ func signedarea(polygon []Point) float64 {
 func (p Polygon) Centroid() Point {
 	var A, xA, yA float64
 	for _, r := range p {
+		if len(r) == 0 {
+			continue
+		}
 		a := signedarea(r)
 		cx, cy := 0., 0.
 		if r[len(r)-1] != r[0] {
-			r = append(r, r[0])
+			// Close the ring in a copy: appending in place could write into
+			// spare capacity of the caller's slice.
+			r = append(r[:len(r):len(r)], r[0])
 		}
 		for i := 0; i < len(r)-1; i++ {
 			cx += (r[i].X + r[i+1].X) *
